@@ -350,12 +350,14 @@ Qed.
    attached or not; header checks on, recording OnIntermediate), over ANY transport chunking [s]
    of the wire bytes of [m1 ++ rest]: [m1] ONE data message (opcode 1 or 2 — only text can fail —,
    reserved bits rsv0 on its first frame, fragmented arbitrarily, control frames in between),
-   [rest] the frames that follow.  The stream is WELL-FORMED ON THE WIRE ([wire_ok], coq/model/
-   ReaderInvalid.v): the frame-sequence spec of the same configuration with the UTF-8 rule
-   switched off accepts it to its end — every frame passes ws.CheckHeader in the fragmentation
-   state it arrives in, the MaxFrameSize limit and the RSV1 rule of the extension, and the stream
-   ends at a message boundary; NOTHING is assumed about the payload bytes of m1 or of rest
-   (a stream cut short is C16's business).
+   [rest] the frames that follow.  Only the message m1 itself need be WELL-FORMED ON THE WIRE
+   ([first_message_ok], coq/model/ReaderInvalid.v): the frame-sequence spec of the same
+   configuration with the UTF-8 rule switched off either accepts the whole stream ([wire_ok]) or at
+   least gets as far as emitting its first message — every frame up to and including the final
+   frame of m1 passes ws.CheckHeader in the fragmentation state it arrives in, the MaxFrameSize
+   limit and the RSV1 rule of the extension.  NOTHING is assumed about the payload bytes of m1, and
+   NOTHING at all about [rest] beyond its frames being encodable: it may break any rule or end in
+   the middle of a message (m1 itself cut short is C16's business).
    The caller calls NextFrame and then Read with ANY buffer sizes ks ++ [k]; the LAST of these
    Reads is the first to report ErrInvalidUTF8 — inside a fragment (rejected byte), at the end of a
    non-final fragment, or at the very end of the message when the frame is already drained
@@ -373,13 +375,13 @@ Theorem C18_reader_discard_after_invalid_as_new : forall c rsv0 op k0 p0 l rest 
   let flag := c_ext c && rsv1_bit rsv0 in
   wf_cfg c -> c_check_utf8 c = true -> (op = 1 \/ op = 2) -> Forall wf_sframe (m1 ++ rest) ->
   Forall (fun x => Forall (fun f => ctl_ok f = true) (fr_ctl x)) l ->
-  wire_ok c (m1 ++ rest) ->
+  first_message_ok c (m1 ++ rest) ->
   wf_src s -> tl s = TEOF -> flat s = wire (m1 ++ rest) ->
   let r0 := new_reader s (c_state c) false (c_check_utf8 c) (c_max c) (c_ext c) CbReadAll in
   run_script (OpNext :: map OpRead ks ++ [OpRead k]) r0 = (o0 :: outs ++ [OutRead d (Some RInvalidUtf8)], r1) ->
   Forall not_invalid outs ->
   exists r2, run_script [OpDiscard] r1 = ([OutDiscard None], r2) /\ reads_on_as_new c rest flag r2.
-Proof. exact reader_discard_after_invalid_as_new. Qed.
+Proof. exact reader_discard_after_invalid_first_ok. Qed.
 Print Assumptions C18_reader_discard_after_invalid_as_new.
 
 (* a server with extensions (state 5), UTF-8 checking on, chunks of 3,1,7,2,...
@@ -393,7 +395,12 @@ Print Assumptions C18_reader_discard_after_invalid_as_new.
        "h" and ErrInvalidUTF8 at the very END of the message, the frame fully drained (raw.N = 0,
        frame still set, DFA state 24); Discard: nil, NOT ONE byte read from the source, the Reader at
        rest; the following valid text message is delivered.
-   The spec WITH the UTF-8 rule calls both streams invalid; without it, clean. *)
+   The spec WITH the UTF-8 rule calls both streams invalid; without it, clean.
+   (C) m1 of (A) followed by a BROKEN rest: a continuation frame outside a message, then an unfinished
+       message.  The spec without the UTF-8 rule stops at frame 4 (OProtocol 4) but has emitted m1: the
+       stream is [first_message_ok], not [wire_ok].  Same Reads, ErrInvalidUTF8, Discard: nil, the source
+       stands exactly at the broken rest, the Reader is at rest; the next NextFrame reports the protocol
+       error, as it does from a new Reader. *)
 Example C18_reader_discard_after_invalid_nonvacuous :
   let k1 := [17; 34; 51; 68] in let k2 := [255; 0; 128; 7] in
   let ping := mkSF true 0 9 (Some k2) [1; 2] in
@@ -415,6 +422,11 @@ Example C18_reader_discard_after_invalid_nonvacuous :
   let resb := run_script [OpNext; OpRead 9] r0b in
   let r1b := snd resb in
   let r2b := snd (run_script [OpDiscard] r1b) in
+  let bad := [mkSF true 0 0 (Some k2) [1]; mkSF false 0 1 (Some k2) [1]] in
+  let sc := mkSrc (chunk_by [3; 1; 7; 2] (wire (m1 ++ bad))) TEOF in
+  let r0c := new_reader sc 5 false true 0 true CbReadAll in
+  let r1c := snd (run_script [OpNext; OpRead 2; OpRead 5; OpRead 2] r0c) in
+  let r2c := snd (run_script [OpDiscard] r1c) in
   (wf_cfg c /\ Forall wf_sframe (m1 ++ rest) /\ wire_ok c (m1 ++ rest) /\
    sr_out (spec_run c 0 None [] (m1 ++ rest)) = OInvalidUtf8 /\ wf_src s /\ flat s = wire (m1 ++ rest)) /\
   (errs (fst res) = [None; None; None; Some RInvalidUtf8] /\
@@ -431,9 +443,22 @@ Example C18_reader_discard_after_invalid_nonvacuous :
    r_rawN r1b = 0 /\ r_frame r1b = true /\ r_u8state r1b = 24 /\ flat (r_src r1b) = wire rest /\
    fst (run_script [OpDiscard] r1b) = [OutDiscard None] /\ at_rest r2b /\ r_src r2b = r_src r1b /\
    (exists h1 h2, fst (run_script script r2b) =
-      [OutNext h1 None; OutRead [104; 226; 130; 172] (Some (RIo EEOF)); OutNext h2 None; OutRead [1; 2] (Some (RIo EEOF))])).
+      [OutNext h1 None; OutRead [104; 226; 130; 172] (Some (RIo EEOF)); OutNext h2 None; OutRead [1; 2] (Some (RIo EEOF))])) /\
+  (Forall wf_sframe (m1 ++ bad) /\ first_message_ok c (m1 ++ bad) /\
+   sr_out (spec_run (no_utf8 c) 0 None [] (m1 ++ bad)) = OProtocol 4 /\ wf_src sc /\ flat sc = wire (m1 ++ bad) /\
+   errs (fst (run_script [OpNext; OpRead 2; OpRead 5; OpRead 2] r0c)) = [None; None; None; Some RInvalidUtf8] /\
+   fst (run_script [OpDiscard] r1c) = [OutDiscard None] /\ at_rest r2c /\ flat (r_src r2c) = wire bad /\
+   errs (fst (run_script [OpNext] r2c)) = [Some (RProtocol ContinuationUnexpected)] /\
+   fst (run_script [OpNext] r2c) = fst (run_script [OpNext] (new_reader (r_src r2c) 5 false true 0 true CbReadAll))).
 Proof.
-  cbv zeta. split; [|split].
+  cbv zeta. split; [|split; [|split]].
+  4: { split.
+       { repeat constructor; try reflexivity; try (intro H; discriminate H). }
+       split; [right; vm_compute; discriminate|]. split; [vm_compute; reflexivity|].
+       split; [vm_compute; repeat constructor; discriminate|]. split; [vm_compute; reflexivity|].
+       split; [vm_compute; reflexivity|]. split; [vm_compute; reflexivity|].
+       split; [vm_compute; split; reflexivity|]. split; [vm_compute; reflexivity|].
+       split; vm_compute; reflexivity. }
   - split; [reflexivity|]. split.
     { repeat constructor; try reflexivity; try (intro H; discriminate H). }
     split; [vm_compute; reflexivity|]. split; [vm_compute; reflexivity|].
